@@ -483,9 +483,9 @@ def check_linear(ctx, cid, info, steps, script):
     for s in bad:
         t = s.cmd.split()
         if s.exc[0] in ("hang",) or s.exc[0].startswith("crash"):
-            if s.exc[0] == "hang" and len(t) > 1 and t[1] == "c":
-                # the canonical twin itself is too slow for the per-case budget: nothing about transforms is observed
-                ctx.count("skipped_canonical_grid_too_slow")
+            if s.exc[0] == "hang":
+                # a call too slow for the per-case budget (on the canonical twin or on the transformed grid): nothing is observed, counted
+                ctx.count("skipped_canonical_grid_too_slow" if (len(t) > 1 and t[1] == "c") else "skipped_slow_call")
                 return False
             V("transform.no-return-or-crash", "%s -> %s" % (s.cmd[:80], s.exc))
             return False
@@ -792,8 +792,8 @@ def check_conformal(ctx, cid, info, steps, script):
         return False
     for s in steps:
         if s.exc is not None and (s.exc[0] == "hang" or s.exc[0].startswith("crash")):
-            if s.exc[0] == "hang" and len(s.cmd.split()) > 1 and s.cmd.split()[1] == "c":
-                ctx.count("skipped_canonical_grid_too_slow")
+            if s.exc[0] == "hang":
+                ctx.count("skipped_canonical_grid_too_slow" if (len(s.cmd.split()) > 1 and s.cmd.split()[1] == "c") else "skipped_slow_call")
                 return False
             V(K_ORDER if both else "conformal.no-return-or-crash", "%s -> %s" % (s.cmd[:80], s.exc))
             return False
